@@ -1,9 +1,9 @@
 //! RelocatableOption<Tracked>: on the stack (flavour 0/1) and inside a relocated block (flavour 2)
-use crate::{Case, begin, finish, note_reloc};
-use checks_bb::models::option::*;
-use checks_bb::models::{Known, direct, op_sequences};
-use checks_bb::reloc::Block;
-use checks_bb::tracked::Tracked;
+use crate::families::{Case, begin, finish, note_reloc};
+use crate::models::option::*;
+use crate::models::{Known, direct, op_sequences};
+use crate::reloc::Block;
+use crate::tracked::Tracked;
 use iceoryx2_bb_container::relocatable_option::RelocatableOption;
 use proptest::prelude::*;
 use std::cell::RefCell;
@@ -11,7 +11,7 @@ use vcore::{Ctx, Failure, Obs};
 
 type Opt = RelocatableOption<Tracked>;
 
-fn run_case(c: &Case<OOp>, obs: &mut Obs, known: &Known) -> Result<(), Failure> {
+pub fn run_case(c: &Case<OOp>, obs: &mut Obs, known: &Known) -> Result<(), Failure> {
     begin(known);
     let r = if c.flavour != 2 {
         let mut o: Opt = if c.flavour == 0 { RelocatableOption::None } else { Opt::default() };
